@@ -320,9 +320,12 @@ def main(argv):
     # ---- failing-input search when only a proof / correspondence tie broke ---------------------
     found_input = [b for b in unlisted if b["kind"] == "oracle"]
     searched = 0
-    if unlisted and not found_input and gok and driver_ok and cfg.get("runner") and not a.replay:
-        for s2 in range(seed + 1, seed + 1 + cfg.get("search_seeds", 3)):
-            r = run_cases(pid, cfg, "search%d" % s2, s2, "thorough", None, timeout=cfg.get("timeout", {}).get("thorough", 3000))
+    harness_died = any(b["kind"] == "harness" for b in unlisted)
+    if unlisted and not found_input and gok and driver_ok and cfg.get("runner") and not a.replay and not harness_died:
+        # bounded search: a few further seeds at the quick size (a harness that crashed or hung is
+        # itself the replay; re-running it would only repeat the crash)
+        for s2 in range(seed + 1, seed + 1 + cfg.get("search_seeds", 2)):
+            r = run_cases(pid, cfg, "search%d" % s2, s2, "quick", None, timeout=min(600, cfg.get("timeout", {}).get("quick", 600)))
             searched += len(r["cases"])
             vs = [v for v in (r["stats"].get("oracle_violations") or []) if not any(k.get("sig") == v["sig"] for k in known)]
             if vs:
